@@ -112,6 +112,166 @@ let tok line =
   String.concat " " (List.map (fun (k, t) ->
     (if k then "d" else "t") ^ string_of_int (List.length t) ^ (if utf8_wf t then "" else "!")) ts)
 
+(* ---- tree: "attr rev item item ..." (see harness/hx-sort/src/tree.rs) ---- *)
+let enc2 (l : n list) : string =
+  if l = [] then "%_" else begin
+    let b = Buffer.create 16 in
+    List.iter (fun x ->
+      let c = int_of_n x in
+      let ch = Char.chr c in
+      if (ch >= 'a' && ch <= 'z') || (ch >= 'A' && ch <= 'Z') || (ch >= '0' && ch <= '9') || ch = '_' || ch = '.' || ch = '-'
+      then Buffer.add_char b ch else Buffer.add_string b (Printf.sprintf "%%%02X" c)) l;
+    Buffer.contents b
+  end
+
+(* split a decoded byte string on "::" *)
+let split_path (l : n list) : n list list =
+  let s = string_of_bytes l in
+  let parts = ref [] and cur = Buffer.create 8 in
+  let i = ref 0 and len = String.length s in
+  while !i < len do
+    if !i + 1 < len && s.[!i] = ':' && s.[!i + 1] = ':' then begin
+      parts := Buffer.contents cur :: !parts; Buffer.clear cur; i := !i + 2
+    end else begin Buffer.add_char cur s.[!i]; incr i end
+  done;
+  parts := Buffer.contents cur :: !parts;
+  List.rev_map bytes_of_string !parts
+
+type item = {
+  is_group : bool; rank : int; modpath : n list; disp : n list; raw : n list;
+  iloc : n list * (n * n); iargs : n list list option;
+  types : n list list; consts : (int * (z * n list) list) option }
+
+let split_once c s = match String.index_opt s c with
+  | Some i -> (String.sub s 0 i, String.sub s (i + 1) (String.length s - i - 1))
+  | None -> failwith ("split_once " ^ s)
+
+let parse_item tok =
+  match String.split_on_char ';' tok with
+  | [k; rank; mp; disp; raw; file; line; col; extra] ->
+    let is_group = (k = "G") in
+    let iargs = ref None and types = ref [] and consts = ref None in
+    if extra <> "-" then begin
+      if is_group then
+        List.iter (fun part ->
+          if String.length part > 2 && String.sub part 0 2 = "t:" then
+            types := List.map (fun t -> dec_name (snd (split_once '=' t)))
+                       (String.split_on_char ',' (String.sub part 2 (String.length part - 2)))
+          else if String.length part > 2 && String.sub part 0 2 = "c:" then begin
+            let (kd, vs) = split_once ':' (String.sub part 2 (String.length part - 2)) in
+            let tag = match kd with "i" -> 0 | "c" -> 1 | "b" -> 2 | _ -> failwith "const kind" in
+            consts := Some (tag, List.map (fun t -> let (x, nm) = split_once '=' t in (z_of_string x, dec_name nm))
+                                   (String.split_on_char ',' vs))
+          end) (String.split_on_char '!' extra)
+      else iargs := Some (dec_names (snd (split_once '=' extra)))
+    end;
+    { is_group; rank = int_of_string rank; modpath = dec_name mp; disp = dec_name disp; raw = dec_name raw;
+      iloc = (dec_name file, (n_of_string line, n_of_string col)); iargs = !iargs; types = !types; consts = !consts }
+  | _ -> failwith "item"
+
+let tree_case line =
+  match toks line with
+  | attr :: rev :: items ->
+    let items = List.map parse_item (List.filter (fun t -> t <> "") items) in
+    (attr_of_s attr, bool_of_s rev, items)
+  | _ -> failwith "tree"
+
+(* the unsorted forest, built like tree_dump does *)
+let build_forest items =
+  let forest = ref [] in
+  List.iter (fun it -> if not it.is_group then
+    forest := insert_entry (split_path it.modpath)
+                (Leaf (n_of_small it.rank, it.disp, None, it.iloc, it.iargs)) !forest) items;
+  let next = ref 100000 in
+  List.iter (fun it -> if it.is_group then begin
+    let base = split_path it.modpath @ [it.raw] in
+    let add path name cst =
+      incr next;
+      forest := insert_entry path (Leaf (n_of_small !next, name, cst, it.iloc, None)) !forest in
+    match it.types, it.consts with
+    | [], None -> ()
+    | ts, None -> List.iter (fun t -> add base t None) ts
+    | [], Some (tag, vs) -> List.iter (fun (x, nm) -> add base nm (Some (n_of_small tag, x))) vs
+    | ts, Some (tag, vs) ->
+      List.iter (fun t -> List.iter (fun (x, nm) -> add (base @ [t]) nm (Some (n_of_small tag, x))) vs) ts
+  end) items;
+  List.iter (fun it -> if it.is_group then
+    forest := insert_group (split_path it.modpath) it.raw ((n_of_small it.rank, it.disp), it.iloc) !forest) items;
+  !forest
+
+let dump_s forest =
+  let rows = dump_forest forest in
+  if rows = [] then "-" else
+  String.concat " " (List.map (fun (((d, k), name), args) ->
+    let ks = (match int_of_n k with 0 -> "L" | 1 -> "P" | _ -> "G") in
+    string_of_n d ^ ":" ^ ks ^ ":" ^ enc2 name ^
+    (match args with
+     | None -> ""
+     | Some [] -> ":a:%0"
+     | Some l -> ":a:" ^ String.concat "," (List.map enc2 l))) rows)
+
+let tree line =
+  let (attr, rev, items) = tree_case line in
+  match sort_forest_dec attr rev (build_forest items) with
+  | Ok f -> dump_s f
+  | Panic p -> "panic " ^ string_of_panic p
+
+(* parse the implementation's dump back into nodes and lay it over the unsorted forest *)
+type dnode = { dk : string; dname : n list; dargs : n list list option; mutable dch : dnode list }
+
+let parse_dump (s : string) : dnode list =
+  if s = "-" then [] else begin
+    let rows = List.map (fun tok ->
+      match String.split_on_char ':' tok with
+      | [d; k; nm] -> (int_of_string d, { dk = k; dname = dec_name nm; dargs = None; dch = [] })
+      | [d; k; nm; "a"; args] -> (int_of_string d, { dk = k; dname = dec_name nm; dargs = Some (dec_names args); dch = [] })
+      | _ -> failwith "dump row") (String.split_on_char ' ' s) in
+    (* build by depth using a stack *)
+    let roots = ref [] in
+    let stack : (int * dnode) list ref = ref [] in
+    List.iter (fun (d, nd) ->
+      while (match !stack with (d', _) :: _ when d' >= d -> true | _ -> false) do stack := List.tl !stack done;
+      (match !stack with
+       | (_, p) :: _ -> p.dch <- p.dch @ [nd]
+       | [] -> roots := !roots @ [nd]);
+      stack := (d, nd) :: !stack) rows;
+    !roots
+  end
+
+exception Mismatch of string
+
+let rec overlay (orig : tree list) (out : dnode list) : tree list =
+  let used = Array.make (List.length orig) false in
+  let origa = Array.of_list orig in
+  if List.length orig <> List.length out then raise (Mismatch "sibling-count-differs");
+  List.map (fun nd ->
+    let found = ref None in
+    Array.iteri (fun i t ->
+      if !found = None && not used.(i) then
+        match t, nd.dk with
+        | Leaf (a, n, c, l, g), "L" when n = nd.dname && (g = None) = (nd.dargs = None) -> found := Some i
+        | Parent (_, g, _), ("P" | "G") when display_name t = nd.dname && (g <> None) = (nd.dk = "G") -> found := Some i
+        | _ -> ()) origa;
+    match !found with
+    | None -> raise (Mismatch "entry-lost-duplicated-or-moved")
+    | Some i ->
+      used.(i) <- true;
+      (match origa.(i) with
+       | Leaf (a, n, c, l, _) -> Leaf (a, n, c, l, nd.dargs)
+       | Parent (r, g, ch) -> Parent (r, g, overlay ch nd.dch))) out
+
+let tree_check line =
+  let (c, i) = split_sb line in
+  let (attr, rev, items) = tree_case c in
+  if String.length i >= 5 && String.sub i 0 5 = "panic" then verdict false ("outcome:" ^ i)
+  else if String.length i >= 5 && String.sub i 0 5 = "crash" then verdict false ("outcome:" ^ i)
+  else begin
+    let orig = build_forest items in
+    match (try Ok (overlay orig (parse_dump i)) with Mismatch m -> Panic Other | Failure _ -> Panic Other) with
+    | Ok out -> verdict (forest_sb_dec attr rev orig out) "siblings-or-arguments-not-in-the-specified-order"
+    | Panic _ -> verdict false "entry-lost-duplicated-or-moved-to-another-parent"
+  end
+
 let dispatch mode line =
   match mode with
   | "nat" -> nat line
@@ -120,6 +280,8 @@ let dispatch mode line =
   | "cmp.sb" -> cmp_check line
   | "sort" -> sort line
   | "sort.sb" -> sort_check line
+  | "tree" -> tree line
+  | "tree.sb" -> tree_check line
   | "class" -> cls line
   | "tok" -> tok line
   | _ -> failwith ("unknown mode " ^ mode)
